@@ -136,6 +136,7 @@ func main() {
 		{"StepKinds.lean", genStepKinds},
 		{"MatrixRE.lean", genMatrixRE},
 		{"Jwk.lean", genJwk},
+		{"Structs.lean", genStructs},
 	}
 	for _, g := range gens {
 		b, err := g.f(root, *repo)
